@@ -55,6 +55,50 @@ type line struct {
 	Key    string         `json:"key"`
 	Sample map[string]any `json:"sample,omitempty"`
 	Tags   []string       `json:"tags"`
+	World  *worldJSON     `json:"world,omitempty"` // the inputs, so that a replay needs no seed
+}
+
+type connJSON struct {
+	Src, Dst     int
+	SrcIP, DstIP string
+	Proto, Port  int
+}
+type worldJSON struct {
+	SAs    []*kapiv1.ServiceAccount
+	NSs    []*kapiv1.Namespace
+	Pods   []*kapiv1.Pod
+	PodIPs []string
+	NPs    []*networkingv1.NetworkPolicy
+	Conns  []connJSON
+}
+
+func (w *world) toJSON() *worldJSON {
+	j := &worldJSON{SAs: w.sas, NSs: w.nss, NPs: w.nps}
+	for _, p := range w.pods {
+		j.Pods = append(j.Pods, p.pod)
+		j.PodIPs = append(j.PodIPs, p.ip.String())
+	}
+	ips := func(ip net.IP) string {
+		if ip == nil {
+			return ""
+		}
+		return ip.String()
+	}
+	for _, c := range w.conns {
+		j.Conns = append(j.Conns, connJSON{c.src, c.dst, ips(c.srcIP), ips(c.dstIP), c.proto, c.port})
+	}
+	return j
+}
+
+func (j *worldJSON) toWorld() *world {
+	w := &world{sas: j.SAs, nss: j.NSs, nps: j.NPs}
+	for i, p := range j.Pods {
+		w.pods = append(w.pods, podInfo{p, net.ParseIP(j.PodIPs[i])})
+	}
+	for _, c := range j.Conns {
+		w.conns = append(w.conns, connSpec{src: c.Src, dst: c.Dst, srcIP: net.ParseIP(c.SrcIP), dstIP: net.ParseIP(c.DstIP), proto: c.Proto, port: c.Port})
+	}
+	return w
 }
 
 // ---------------------------------------------------------------- Coq printing
@@ -452,7 +496,9 @@ var portNums = []int{53, 80, 81, 82, 83, 443, 8080, 9090, 3000, 1, 65535}
 var portNames = []string{"http", "dns", "metrics", "sctp-p", "nosuch"}
 var protos = []kapiv1.Protocol{kapiv1.ProtocolTCP, kapiv1.ProtocolUDP, kapiv1.ProtocolSCTP}
 
-func genPort(r *rng, tags map[string]bool) networkingv1.NetworkPolicyPort {
+// near: when >0, numeric ports are mostly taken close to it (adjacent and almost-adjacent numbers exercise the
+// merging of SimplifyPorts and its gaps)
+func genPort(r *rng, tags map[string]bool, near int) networkingv1.NetworkPolicyPort {
 	p := networkingv1.NetworkPolicyPort{}
 	if r.chance(60) {
 		q := pick(r, []kapiv1.Protocol{kapiv1.ProtocolTCP, kapiv1.ProtocolTCP, kapiv1.ProtocolUDP, kapiv1.ProtocolSCTP})
@@ -464,7 +510,14 @@ func genPort(r *rng, tags map[string]bool) networkingv1.NetworkPolicyPort {
 	case 0:
 		tags["port:none"] = true
 	case 1, 2, 3, 4:
-		v := intstr.FromInt(pick(r, portNums))
+		n := pick(r, portNums)
+		if near > 0 && r.chance(70) {
+			n = near + pick(r, []int{0, 1, 2, 2, 3, 4, 6})
+		}
+		if n > 65535 {
+			n = 65535
+		}
+		v := intstr.FromInt(n)
 		p.Port = &v
 		tags["port:num"] = true
 	case 5, 6:
@@ -473,6 +526,12 @@ func genPort(r *rng, tags map[string]bool) networkingv1.NetworkPolicyPort {
 		tags["port:named"] = true
 	default:
 		lo := pick(r, portNums)
+		if near > 0 && r.chance(60) {
+			lo = near + pick(r, []int{0, 2, 3, 5, 8})
+		}
+		if lo > 65535 {
+			lo = 65535
+		}
 		v := intstr.FromInt(lo)
 		p.Port = &v
 		hi := lo + r.intn(6)
@@ -511,8 +570,12 @@ func genNP(r *rng, idx int, tags map[string]bool) *networkingv1.NetworkPolicy {
 				peers = append(peers, genPeer(r, tags))
 			}
 			nq := r.intn(5)
+			near := 0
+			if r.chance(60) {
+				near = pick(r, portNums)
+			}
 			for j := 0; j < nq; j++ {
-				ports = append(ports, genPort(r, tags))
+				ports = append(ports, genPort(r, tags, near))
 			}
 			pe = append(pe, peers)
 			po = append(po, ports)
@@ -592,6 +655,7 @@ func malform(r *rng, np *networkingv1.NetworkPolicy) {
 	}
 }
 
+var replayFile = flag.String("replay", "", "replay file (written by the check) whose inputs are to be re-run")
 var malformed = flag.Bool("malformed", true, "also generate objects the Kubernetes API validation would reject")
 var absentEgress = flag.Bool("absent-egress", true, "also generate policies without policyTypes that have egress rules")
 var reserved = flag.Bool("reserved", true, "also generate cases using Calico-reserved label keys as ordinary labels")
@@ -839,7 +903,35 @@ func main() {
 		}
 		sort.Strings(tl)
 		_ = enc.Encode(line{Coq: coq, NT: nrules > 0, Key: strings.Join(npsC, "|") + "#" + strings.Join(podsC, "|") + "#" + strings.Join(clusterC, "|") + "#" + strings.Join(sasC, "|") + "#" + strings.Join(connsC, "|"),
-			Sample: map[string]any{"policies": npsC, "converted": implC}, Tags: tl})
+			Sample: map[string]any{"policies": npsC, "converted": implC}, Tags: tl, World: w.toJSON()})
+	}
+
+	if *replayFile != "" {
+		// re-run the implementation on the inputs stored in a replay file (or a driver output line)
+		raw, err := os.ReadFile(*replayFile)
+		if err != nil {
+			panic(err)
+		}
+		var rp struct {
+			Case *line `json:"case"`
+			line
+		}
+		if err := json.Unmarshal(raw, &rp); err != nil {
+			panic(err)
+		}
+		l := &rp.line
+		if rp.Case != nil {
+			l = rp.Case
+		}
+		if l.World == nil {
+			panic("replay file has no world")
+		}
+		tags := map[string]bool{}
+		for _, t := range l.Tags {
+			tags[t] = true
+		}
+		emit(l.World.toWorld(), tags)
+		return
 	}
 
 	mkPod := func(name, ns string, labels map[string]string, ip string) podInfo {
